@@ -309,7 +309,7 @@ func c04Scenario(c *Ctx, sh *shard, scen int) {
 			c.violation("c04-query-vs-filter", fmt.Sprintf("prefilter-only query returned %v, kept blocks hold %v", got, want), map[string]any{"tree": e})
 		}
 	}
-	stopCtx, cancel := context.WithTimeout(ctx, 10*time.Second)
+	stopCtx, cancel := context.WithTimeout(ctx, 120*time.Second)
 	if err := eng.Stop(stopCtx); err != nil {
 		c.violation("c04-stop", "Stop failed: "+err.Error(), nil)
 	}
